@@ -246,6 +246,15 @@ theorem spherical_radial (I : Integ) (hI : Homogeneous I) (hC : ExactOnConstants
 example : ExactOnConstants (fun _ _ f a b => (b - a) * f ((a + b) / 2)) := by
   intro m q c a b; ring
 
+/-! ## history independence (class D justification) -/
+
+/-- **int_history_independent**: in any sequence of calls the answer at a position is the answer of that
+    call made alone — whatever methods, parameters and limits were used before or after. -/
+theorem int_history_independent (I : Integ) (MC : MCInteg) (pre post : List Call) (c : Call) :
+    (runSeq I MC (pre ++ c :: post))[pre.length]? = some (runCall I MC c) ∧
+    runSeq I MC [c] = [runCall I MC c] := by
+  simp [runSeq]
+
 /-! ## helpers of §1.1 -/
 
 theorem checkLimits_spec (a b : Rat) :
